@@ -7,6 +7,7 @@ toolchain go1.23.5
 require (
 	github.com/anishathalye/porcupine v1.3.0
 	github.com/bufbuild/buf v0.0.0
+	github.com/bufbuild/protocompile v0.14.1
 	github.com/google/uuid v1.6.0
 	golang.org/x/crypto v0.37.0
 	golang.org/x/sys v0.32.0
@@ -26,7 +27,6 @@ require (
 	connectrpc.com/connect v1.18.1 // indirect
 	connectrpc.com/otelconnect v0.7.2 // indirect
 	github.com/antlr4-go/antlr/v4 v4.13.1 // indirect
-	github.com/bufbuild/protocompile v0.14.1 // indirect
 	github.com/bufbuild/protoplugin v0.0.0-20250218205857-750e09ce93e1 // indirect
 	github.com/bufbuild/protovalidate-go v0.9.3 // indirect
 	github.com/containerd/log v0.1.0 // indirect
